@@ -3729,7 +3729,7 @@ class Client:
                                 m.dup = True
                             m.state = mqtt_ms_publish
                         else:
-                            if m.state == mqtt_ms_wait_for_pubcomp:
+                            if m.state in (mqtt_ms_wait_for_pubcomp, mqtt_ms_resend_pubrel):
                                 m.state = mqtt_ms_resend_pubrel
                             else:
                                 if m.state == mqtt_ms_wait_for_pubrec:
